@@ -9,6 +9,9 @@ pub enum End {
     Signal(i32, bool),
     Stopped(i32),
     Timeout,
+    /// Every thread of the child sleeps in futex-wait without a timeout, on many consecutive samples: nothing inside the
+    /// process can ever wake any of them (its memory is private since the fork) - a deadlock, not a slow run.
+    Deadlocked(String),
 }
 
 pub struct ProbeResult {
@@ -19,6 +22,41 @@ pub struct ProbeResult {
 /// Forks; the child runs `f(out_fd)` and `_exit`s with its return value. The parent must be
 /// single-threaded. `timeout_ms` is a watchdog only: a `Timeout` result is inconclusive.
 pub fn probe<F: FnOnce(i32) -> i32>(timeout_ms: u64, untraced: bool, f: F) -> ProbeResult {
+    probe_ex(timeout_ms, untraced, false, f)
+}
+
+/// (number of threads, all of them in an untimed futex wait?)
+fn all_threads_in_untimed_futex(pid: i32) -> (usize, bool) {
+    let mut n = 0;
+    let dir = match std::fs::read_dir(format!("/proc/{}/task", pid)) {
+        Ok(d) => d,
+        Err(_) => return (0, false),
+    };
+    for e in dir.flatten() {
+        n += 1;
+        let base = e.path();
+        let stat = std::fs::read_to_string(base.join("stat")).unwrap_or_default();
+        let state = stat.rfind(')').and_then(|i| stat[i + 1..].split_whitespace().next().map(|x| x.to_string())).unwrap_or_default();
+        if state != "S" {
+            return (n, false);
+        }
+        let sc = std::fs::read_to_string(base.join("syscall")).unwrap_or_default();
+        let f: Vec<&str> = sc.split_whitespace().collect();
+        // "202 uaddr op val timeout ..." : futex, FUTEX_WAIT* (op & 0x7f in {0, 9}), timeout pointer NULL
+        if f.len() < 5 || f[0] != "202" {
+            return (n, false);
+        }
+        let op = u64::from_str_radix(f[2].trim_start_matches("0x"), 16).unwrap_or(99) & 0x7f;
+        let to = u64::from_str_radix(f[4].trim_start_matches("0x"), 16).unwrap_or(1);
+        if !(op == 0 || op == 9) || to != 0 {
+            return (n, false);
+        }
+    }
+    (n, n > 0)
+}
+
+/// Like `probe`; with `detect_deadlock` the parent also watches for the deadlocked state (see `End::Deadlocked`).
+pub fn probe_ex<F: FnOnce(i32) -> i32>(timeout_ms: u64, untraced: bool, detect_deadlock: bool, f: F) -> ProbeResult {
     let mut fds = [0i32; 2];
     unsafe {
         assert_eq!(0, libc::pipe(fds.as_mut_ptr()));
@@ -65,6 +103,31 @@ pub fn probe<F: FnOnce(i32) -> i32>(timeout_ms: u64, untraced: bool, f: F) -> Pr
                     end = End::Exit(-1);
                 }
                 break;
+            }
+            if detect_deadlock && crate::now_ms() - start > 200 && all_threads_in_untimed_futex(pid).1 {
+                let out_len = out.len();
+                let mut stable = true;
+                let (n0, _) = all_threads_in_untimed_futex(pid);
+                for _ in 0..15 {
+                    libc::usleep(20_000);
+                    let (n, all) = all_threads_in_untimed_futex(pid);
+                    if !all || n != n0 {
+                        stable = false;
+                        break;
+                    }
+                }
+                while let Ok(n) = file.read(&mut buf) {
+                    if n == 0 {
+                        break;
+                    }
+                    out.extend_from_slice(&buf[..n]);
+                }
+                if stable && out.len() == out_len && libc::waitpid(pid, &mut status, libc::WNOHANG) == 0 {
+                    libc::kill(pid, libc::SIGKILL);
+                    libc::waitpid(pid, &mut status, 0);
+                    end = End::Deadlocked(format!("all {} thread(s) of the process sleep in futex-wait without timeout (16 samples, 300 ms)", n0));
+                    break;
+                }
             }
             if crate::now_ms() - start > timeout_ms {
                 libc::kill(pid, libc::SIGKILL);
